@@ -365,7 +365,7 @@ def obligations(tier):
         Ob('render-session', 'symx', 'a whole decoded session (notices, resolution, enum labels, passthrough, unknown interface) followed by one command, colour on vs off', FUNCS[11:],
            '11-line log; commands: list, list with matcher, filter, breakpoint, connection, help, help matcher, matcher, unknown, empty', render_session,
            cases=['list', 'list wl_seat ~ 2', 'filter wl_pointer ! wl_callback', 'breakpoint wl_seat.name', 'connection', 'connection A', 'connection zz', 'help', 'help list', 'help matcher',
-                  'matcher [a, b ! c].d(e=1, "s")', 'zzz', '', 'l [', 'filter', 'breakpoint'] +
+                  'matcher [a, b ! c].d(e=1, "s")', 'zzz', '', 'l [', 'filter', 'breakpoint', 'filter wl_pointer(! x=0)', 'matcher .motion(! 5, nil)', 'breakpoint (! nil)', 'filter (x=0 ! y=1)', 'filter [', 'breakpoint a(b', 'list a.b.c'] +
                  [(c, n) for n in (0, 1, 2, 3) for c in ('list', 'list wl_nothing', 'list wl_registry ~ 1', 'connection', 'connection A', 'filter wl_nothing')]),
         Ob('paste-back-matcher', 'symx', 'colour sequences around any token (or all tokens) of a matcher text do not change what it parses to', FUNCS[16:17], '%d matcher texts x every token x 3 styles' % len(MATCHER_TEXTS),
            paste_matcher, cases=MATCHER_TEXTS),
